@@ -144,6 +144,7 @@ type ownSummary struct {
 	nodes     []map[int]map[srcRef]bool // returned fresh shape graph: node -> selector -> targets (kFresh.param = node index)
 	nodeTypes []string
 	invokes   []invokeSum
+	ownF      []map[int]map[srcRef]guard // struct-valued result j, field k: what that field may address (nil: not told apart)
 }
 
 func (s *ownSummary) key() string {
@@ -154,6 +155,13 @@ func (s *ownSummary) key() string {
 	for j := range s.own {
 		for k, g := range s.own[j] {
 			parts = append(parts, fmt.Sprintf("o%d:%s:%d", j, k, g))
+		}
+	}
+	for j := range s.ownF {
+		for k, m := range s.ownF[j] {
+			for r, g := range m {
+				parts = append(parts, fmt.Sprintf("f%d.%d:%s:%d", j, k, r, g))
+			}
 		}
 	}
 	for n, edges := range s.nodes {
@@ -204,6 +212,9 @@ type funcOwn struct {
 	closureOf  map[*loc]*ssa.Function
 	litIndex   map[*ssa.Function]int
 	callees    map[*ssa.Function]bool
+	valFields  map[ssa.Value]map[int]ptsSet // struct-valued call results whose fields the callee's summary tells apart
+	retF       []map[int]ptsSet             // per result of the declared function: per-field sets of a returned struct value
+	retFlat    []bool                       // …some return of that result could not be told apart
 	invokes    []struct {
 		param int
 		args  []ptsSet
@@ -366,6 +377,14 @@ func (e *ownEngine) analyze(top *ssa.Function) *funcOwn {
 	fo := &funcOwn{e: e, top: top, locs: map[locKey]*loc{}, siteID: map[any]int{}, pts: map[ssa.Value]ptsSet{},
 		tuples: map[ssa.Value][]ptsSet{}, contents: map[*loc]map[int]ptsSet{}, written: map[*loc]writeInfo{},
 		retPts: map[*ssa.Function][]ptsSet{}, blockGuard: map[*ssa.BasicBlock]guard{}, closureOf: map[*loc]*ssa.Function{}, litIndex: map[*ssa.Function]int{}, callees: map[*ssa.Function]bool{}}
+	fo.valFields = map[ssa.Value]map[int]ptsSet{}
+	if nr := top.Signature.Results().Len(); nr > 0 {
+		fo.retF = make([]map[int]ptsSet, nr)
+		fo.retFlat = make([]bool, nr)
+		for j := range fo.retF {
+			fo.retF[j] = map[int]ptsSet{}
+		}
+	}
 	collectLiterals(top, &fo.funcs)
 	for _, f := range fo.funcs {
 		for _, b := range f.Blocks {
@@ -677,6 +696,119 @@ func (fo *funcOwn) storeInto(p ptr, vals ptsSet) {
 	fo.addSet(m[sel], vals, 0)
 }
 
+// valueParamFields: v is a struct-valued parameter of the declared function (typically a value receiver). Its
+// pointer-like fields are named by the access paths "vK" (field K of the value itself, as opposed to "fK", field K of
+// what a pointer refers to), so that a write through one field is not attributed to what the other fields refer to.
+// Function-typed fields stay on the whole-parameter location (they are the call-backs of the declared function).
+func (fo *funcOwn) valueParamFields(v ssa.Value) map[int]ptsSet {
+	par, ok := v.(*ssa.Parameter)
+	if !ok || par.Parent() != fo.top {
+		return nil
+	}
+	st, ok := par.Type().Underlying().(*types.Struct)
+	if !ok {
+		return nil
+	}
+	idx := -1
+	for i, q := range fo.top.Params {
+		if q == par {
+			idx = i
+		}
+	}
+	if idx < 0 {
+		return nil
+	}
+	out := map[int]ptsSet{}
+	for k := 0; k < st.NumFields(); k++ {
+		ft := st.Field(k).Type()
+		if !pointerLike(ft) {
+			continue
+		}
+		if _, isFunc := ft.Underlying().(*types.Signature); isFunc {
+			out[k] = ptsSet{ptr{fo.mkLoc(kParam, idx, "", nil, 0, ""), selWhole}: 0}
+			continue
+		}
+		if _, isStruct := ft.Underlying().(*types.Struct); isStruct {
+			// nested struct value: stays flat (everything the parameter holds)
+			out[k] = ptsSet{ptr{fo.mkLoc(kParam, idx, "", nil, 0, ""), selWhole}: 0}
+			continue
+		}
+		out[k] = ptsSet{ptr{fo.mkLoc(kParam, idx, fmt.Sprintf("v%d", k), nil, 0, ""), selWhole}: 0}
+	}
+	return out
+}
+
+// fieldsOf: the per-field points-to sets of a struct *value*, when its fields can be told apart: a struct-valued
+// parameter of the declared function, the result of a call whose summary keeps the fields apart, or a load of a local
+// struct that was only ever written field by field.
+func (fo *funcOwn) fieldsOf(v ssa.Value) (map[int]ptsSet, bool) {
+	switch a := v.(type) {
+	case *ssa.Parameter:
+		if vf := fo.valueParamFields(a); vf != nil {
+			return vf, true
+		}
+	case *ssa.Call:
+		if vf, ok := fo.valFields[a]; ok {
+			return vf, true
+		}
+	case *ssa.UnOp:
+		if a.Op != token.MUL {
+			return nil, false
+		}
+		st, ok := a.Type().Underlying().(*types.Struct)
+		if !ok {
+			return nil, false
+		}
+		src := fo.ptsOf(a.X)
+		if len(src) == 0 {
+			return nil, false
+		}
+		for p := range src {
+			if p.sel != selWhole || p.l.kind != kFresh {
+				return nil, false
+			}
+			if m := fo.contents[p.l]; m != nil && len(m[selAny]) > 0 {
+				return nil, false
+			}
+		}
+		out := map[int]ptsSet{}
+		for k := 0; k < st.NumFields(); k++ {
+			if !pointerLike(st.Field(k).Type()) {
+				continue
+			}
+			set := ptsSet{}
+			for p, g := range src {
+				fo.loadEach(ptr{p.l, k}, func(q ptr, qg guard) { set.add(q, g|qg) })
+			}
+			out[k] = set
+		}
+		return out, true
+	case *ssa.MakeInterface:
+		return fo.fieldsOf(a.X)
+	case *ssa.ChangeType:
+		return fo.fieldsOf(a.X)
+	}
+	return nil, false
+}
+
+// projectValueField: caller side of a "vK" path component — the pointers field K of the struct value arg holds.
+// ok=false: arg is not in a shape whose fields can be told apart (the caller then keeps the whole value: a superset).
+func (fo *funcOwn) projectValueField(arg ssa.Value, k int) (map[*loc]guard, bool) {
+	vf, ok := fo.fieldsOf(arg)
+	if !ok {
+		return nil, false
+	}
+	out := map[*loc]guard{}
+	for p, g := range vf[k] {
+		if old, has := out[p.l]; has {
+			out[p.l] = old & g
+		} else {
+			out[p.l] = g
+		}
+	}
+	return out, true
+}
+
 func (fo *funcOwn) write(l *loc, g guard, pos token.Pos, how string) {
 	if old, ok := fo.written[l]; ok {
 		if old.g == g && strings.HasPrefix(old.how, "call of") && !strings.HasPrefix(how, "call of") {
@@ -762,8 +894,20 @@ func (fo *funcOwn) process(f *ssa.Function, b *ssa.BasicBlock, ins ssa.Instructi
 		if pointerLike(x.Val.Type()) {
 			vals = fo.ptsOf(x.Val)
 		}
+		var vfields map[int]ptsSet
+		switch x.Val.(type) {
+		case *ssa.Parameter, *ssa.Call:
+			vfields, _ = fo.fieldsOf(x.Val)
+		}
 		for p, g := range fo.ptsOf(x.Addr) {
 			fo.write(p.l, g|bg, instrPos(ins), "store")
+			if vfields != nil && p.sel == selWhole && p.l.kind == kFresh {
+				// spill of a struct-valued parameter (value receiver): keep its fields apart
+				for k, fs := range vfields {
+					fo.storeInto(ptr{p.l, k}, fs)
+				}
+				continue
+			}
 			fo.storeInto(p, vals)
 		}
 	case *ssa.Phi:
@@ -797,7 +941,11 @@ func (fo *funcOwn) process(f *ssa.Function, b *ssa.BasicBlock, ins ssa.Instructi
 		}
 	case *ssa.Field:
 		if pointerLike(x.Type()) {
-			fo.addAll(x, fo.ptsOf(x.X), 0)
+			if vf, ok := fo.fieldsOf(x.X); ok && vf[x.Field] != nil {
+				fo.addAll(x, vf[x.Field], 0)
+			} else {
+				fo.addAll(x, fo.ptsOf(x.X), 0)
+			}
 		}
 	case *ssa.Index:
 		if pointerLike(x.Type()) {
@@ -863,6 +1011,21 @@ func (fo *funcOwn) process(f *ssa.Function, b *ssa.BasicBlock, ins ssa.Instructi
 		for j, r := range x.Results {
 			if j < len(fo.retPts[f]) && pointerLike(r.Type()) {
 				fo.addSet(fo.retPts[f][j], fo.ptsOf(r), bg)
+			}
+			if f == fo.top && j < len(fo.retF) {
+				if _, isStruct := r.Type().Underlying().(*types.Struct); isStruct && pointerLike(r.Type()) {
+					if vf, ok := fo.fieldsOf(r); ok {
+						for k, set := range vf {
+							if fo.retF[j][k] == nil {
+								fo.retF[j][k] = ptsSet{}
+							}
+							fo.addSet(fo.retF[j][k], set, bg)
+						}
+					} else if !fo.retFlat[j] {
+						fo.retFlat[j] = true
+						fo.mark(901)
+					}
+				}
 			}
 		}
 	}
@@ -1141,7 +1304,18 @@ func (fo *funcOwn) mapLocs(args []ssa.Value, param int, path string) map[*loc]gu
 	if path == "" {
 		return cur
 	}
-	for _, sel := range strings.Split(path, "/") {
+	for ci, sel := range strings.Split(path, "/") {
+		if strings.HasPrefix(sel, "v") {
+			// field of a struct *value*: project it when the argument's shape allows, else keep the whole value
+			var k int
+			fmt.Sscanf(sel, "v%d", &k)
+			if ci == 0 {
+				if pr, ok := fo.projectValueField(args[param], k); ok {
+					cur = pr
+				}
+			}
+			continue
+		}
 		next := map[*loc]guard{}
 		step := func(l *loc, g guard, s int) {
 			fo.loadEach(ptr{l, s}, func(q ptr, qg guard) {
@@ -1323,6 +1497,23 @@ func (fo *funcOwn) apply(callee *ssa.Function, args []ssa.Value, ins ssa.Instruc
 				continue
 			}
 			fo.setResult(res, nres, j, resolve(r, j), mg)
+		}
+	}
+	if res != nil && nres == 1 && len(sum.ownF) == 1 && sum.ownF[0] != nil {
+		if fo.valFields[res] == nil {
+			fo.valFields[res] = map[int]ptsSet{}
+		}
+		for k, refs := range sum.ownF[0] {
+			if fo.valFields[res][k] == nil {
+				fo.valFields[res][k] = ptsSet{}
+			}
+			for r, g := range refs {
+				mg, ok := fo.mapGuard(g, args)
+				if !ok {
+					continue
+				}
+				fo.addSet(fo.valFields[res][k], resolve(r, 0), mg)
+			}
 		}
 	}
 	for _, iv := range sum.invokes {
@@ -1612,6 +1803,27 @@ func (fo *funcOwn) summary() *ownSummary {
 				s.own[j][r] = old & g
 			} else {
 				s.own[j][r] = g
+			}
+		}
+	}
+	s.ownF = make([]map[int]map[srcRef]guard, n)
+	for j := 0; j < n && j < len(fo.retF); j++ {
+		if fo.retFlat[j] || len(fo.retF[j]) == 0 {
+			continue
+		}
+		s.ownF[j] = map[int]map[srcRef]guard{}
+		for k, set := range fo.retF[j] {
+			s.ownF[j][k] = map[srcRef]guard{}
+			for p, g := range set {
+				r, ok := ref(p.l)
+				if !ok {
+					r = srcRef{kind: kUnknown}
+				}
+				if old, has := s.ownF[j][k][r]; has {
+					s.ownF[j][k][r] = old & g
+				} else {
+					s.ownF[j][k][r] = g
+				}
 			}
 		}
 	}
